@@ -11,6 +11,20 @@
 //
 // The listeners run in this process; a panic of a listener goroutine kills the
 // test binary and the check reports INCONCLUSIVE (crash sites are C08's).
+//
+// Circumstances of arrival (Listener.tla sections 3a, 3b):
+//   - listener configuration: every server runs a second pair of listeners
+//     started with the loopback interface's NAME (localHost.Zone): hardware
+//     timestamping is requested on an interface that has none, so datagrams
+//     arrive without a receive-timestamp control message and no transmit
+//     timestamp is ever delivered ("hw");
+//   - store class: before each attempt of a case with a store class the
+//     process-wide timestamp store is put into that class, relative to the
+//     sending client, through the `verif` hooks of core/server (known client
+//     with k exchanges, request referring to one of them, store full with 2^20
+//     items and the oldest one evictable / not evictable), the class is
+//     verified by inspection (rec.pre) and the client's record is inspected
+//     again after the listener has finished the exchange (rec.post_k).
 package c09
 
 import (
@@ -23,6 +37,8 @@ import (
 	"net"
 	"net/netip"
 	"os"
+	"sort"
+	"strconv"
 	"sync"
 	"sync/atomic"
 	"testing"
@@ -41,6 +57,7 @@ import (
 	"example.com/scion-time/core/server"
 	"example.com/scion-time/core/timebase"
 	"example.com/scion-time/driver/clocks"
+	"example.com/scion-time/net/ntp"
 	"example.com/scion-time/net/nts"
 	"example.com/scion-time/net/ntske"
 
@@ -88,6 +105,28 @@ type tcase struct {
 	Sc   asc      `json:"sc"`
 	Exp  int      `json:"exp"`
 	Drop string   `json:"drop"`
+	// circumstances of arrival
+	Conf  string `json:"conf"`  // listener configuration: "sw" | "hw"
+	Store string `json:"store"` // store class ("asis": left as the run left it)
+	Cls   acls   `json:"cls"`   // what the class means
+	Il    bool   `json:"il"`    // the request refers to an exchange on record
+	Anc   string `json:"anc"`   // what the listener finds next to the datagram: "ts" | "none"
+	Org   string `json:"org"`   // which request field the reply's origin repeats
+}
+
+// a store class (Listener.tla ClassOf)
+type acls struct {
+	K    int    `json:"k"`
+	Il   bool   `json:"il"`
+	Full bool   `json:"full"`
+	Fill string `json:"fill"`
+}
+
+// the store as inspected through the hooks right before an attempt
+type apre struct {
+	K    int    `json:"k"`    // exchanges on record for the client (0: no item)
+	Full bool   `json:"full"` // len(tss) == tssCap
+	Fill string `json:"fill"` // full: "old" the oldest item of another client is evictable | "fresh" it is not; else "none"
 }
 
 type aep struct {
@@ -117,6 +156,7 @@ type arep struct {
 	Dst   aep    `json:"dst"` // the socket it arrived at
 	Sc    *asc   `json:"sc,omitempty"` // SCION only
 	Echo  bool   `json:"echo"`   // origin timestamp = request's transmit timestamp
+	Org   string `json:"org"`    // the request field the origin timestamp repeats: "tx" | "rx" | "none"
 	RawOK bool   `json:"raw_ok"` // SCION: path bytes == slayers Reverse() of the request's path
 }
 
@@ -145,6 +185,14 @@ type rec struct {
 	Sn    int    `json:"sn"`   // replies to it that reached the socket (0 after 3 attempts | 1)
 	Sout  []arep `json:"sout"`
 	Tries int    `json:"tries"`
+	// circumstances of arrival
+	Conf  string `json:"conf"`
+	Store string `json:"store"`
+	Il    bool   `json:"il"`
+	Anc   string `json:"anc"`
+	Obs   bool   `json:"obs"`    // pre / post_k were inspected (cases with a store class)
+	Pre   apre   `json:"pre"`    // the store before the (last) attempt
+	PostK int    `json:"post_k"` // exchanges on record after the sentinel's exchange was finished; -1: not observed
 }
 
 // packet counters of both servers after one forged datagram
@@ -232,25 +280,41 @@ func (h *countHandler) snapshot() map[string]int {
 	return r
 }
 
-// what Listener.tla predicts for the datagrams sent so far (per attempt)
-var predicted = &countHandler{m: map[string]int{}}
-
-func predict(stage string) {
-	predicted.mu.Lock()
-	predicted.m[stage]++
-	predicted.mu.Unlock()
+// what Listener.tla predicts for the datagrams sent so far to one server's
+// listeners (per attempt)
+func (s *srv) predict(stage string) {
+	s.pred.mu.Lock()
+	s.pred.m[stage]++
+	s.pred.mu.Unlock()
 }
 
 // stage record: how often the listeners logged a stage vs. the prediction
 type srec struct {
 	K         string `json:"k"` // "stage"
+	Conf      string `json:"conf"`
 	Stage     string `json:"stage"`
 	Logged    int    `json:"logged"`
 	Predicted int    `json:"predicted"`
 }
 
+// ancillary-data record: how often the listeners of one configuration found
+// no receive timestamp next to a datagram vs. the datagrams sent to them
+type ancrec struct {
+	K         string `json:"k"` // "anc"
+	Conf      string `json:"conf"`
+	Stage     string `json:"stage"` // "rxtimestamp" (common layout with "stage")
+	Logged    int    `json:"logged"`
+	Predicted int    `json:"predicted"` // hw: every datagram; sw: none
+	Sent      int    `json:"sent"`
+}
+
+const msgNoRxTimestamp = "log:failed to read packet rx timestamp"
+
 type srv struct {
 	name      string
+	conf      string // "sw": started without an interface name | "hw": with the loopback interface's name
+	pred      *countHandler
+	sent      atomic.Int64 // datagrams sent to its listeners
 	ip        net.IP
 	ip6       netip.Addr // the host's IPv6 address in SCION headers (never on the underlay)
 	ntpPort   int
@@ -261,12 +325,56 @@ type srv struct {
 	logs      *countHandler
 }
 
+// model host "C" as one worker of the driver embodies it
+type client struct {
+	ip4 net.IP
+	ip6 netip.Addr // its IPv6 address in SCION headers (never on the underlay)
+}
+
 var (
-	hostC  net.IP
-	hostC6 = netip.MustParseAddr("fd00:1:2:3:4:5:6:c")
+	hostC  = &client{ip6: netip.MustParseAddr("fd00:1:2:3:4:5:6:c")}
 	iaC    = addr.MustParseIA("1-ff00:0:110")
-	srvs  = map[string]*srv{}
+	srvs   = map[string]*srv{} // started without an interface name
+	srvsHw = map[string]*srv{} // started with the loopback interface's name
+	hwDead = map[string]bool{} // transport -> the hw listener did not answer the preflight request (recorded)
 )
+
+func inst(name, conf string) *srv {
+	if conf == "hw" {
+		return srvsHw[name]
+	}
+	return srvs[name]
+}
+
+// the client identity under which the listeners file a request (server_ip.go:
+// srcAddr.Addr().String(); server_scion.go: SrcIA.String() + "," + srcAddr.String())
+func (cl *client) id(tp, st string) string {
+	if tp == "ip" {
+		return v4(cl.ip4).String()
+	}
+	if st == "v6" {
+		return iaC.String() + "," + cl.ip6.String()
+	}
+	return iaC.String() + "," + v4(cl.ip4).String()
+}
+
+func (cl *client) ids() []string {
+	return []string{cl.id("ip", "v4"), cl.id("scion", "v4"), cl.id("scion", "v6")}
+}
+
+func loopbackName(t testing.TB) string {
+	ifs, err := net.Interfaces()
+	if err != nil {
+		t.Fatalf("net.Interfaces: %v", err)
+	}
+	for _, i := range ifs {
+		if i.Flags&net.FlagLoopback != 0 && i.Flags&net.FlagUp != 0 {
+			return i.Name
+		}
+	}
+	t.Fatalf("no loopback interface")
+	return ""
+}
 
 func freePort(t testing.TB, ip net.IP) int {
 	c, err := net.ListenUDP("udp4", &net.UDPAddr{IP: ip})
@@ -281,8 +389,8 @@ func freePort(t testing.TB, ip net.IP) int {
 	return p
 }
 
-func startServer(t testing.TB, name string, ip net.IP, ia string) *srv {
-	s := &srv{name: name, ip: ip, ia: addr.MustParseIA(ia)}
+func startServer(t testing.TB, name string, ip net.IP, ia string, conf string) *srv {
+	s := &srv{name: name, conf: conf, ip: ip, ia: addr.MustParseIA(ia), pred: &countHandler{m: map[string]int{}}}
 	s.ip6 = netip.MustParseAddr("fd00:1:2:3:4:5:6:" + map[string]string{"A": "a", "B": "b"}[name])
 	// the listeners register their counters with promauto on the default
 	// registerer: give each server its own registry so that two servers can
@@ -298,9 +406,18 @@ func startServer(t testing.TB, name string, ip net.IP, ia string) *srv {
 	s.logs = &countHandler{m: map[string]int{}}
 	log := slog.New(s.logs)
 	ctx := context.Background()
-	server.StartIPServer(ctx, log, &net.UDPAddr{IP: ip, Port: s.ntpPort}, 0, s.prov)
-	server.StartSCIONServer(ctx, log, "", &net.UDPAddr{IP: ip, Port: s.scionPort}, 0, s.prov)
-	srvs[name] = s
+	// Start*Server hand localHost.Zone to udp.EnableTimestamping as the interface name
+	zone := ""
+	if conf == "hw" {
+		zone = loopbackName(t)
+	}
+	server.StartIPServer(ctx, log, &net.UDPAddr{IP: ip, Port: s.ntpPort, Zone: zone}, 0, s.prov)
+	server.StartSCIONServer(ctx, log, "", &net.UDPAddr{IP: ip, Port: s.scionPort, Zone: zone}, 0, s.prov)
+	if conf == "hw" {
+		srvsHw[name] = s
+	} else {
+		srvs[name] = s
+	}
 	return s
 }
 
@@ -421,12 +538,20 @@ func seal(key, nonce, ad []byte) []byte {
 }
 
 // the concrete payload of a case; the second result is the request's transmit
-// timestamp field (nil if the payload is shorter than a header)
-func buildPayload(c *tcase, s *srv, rng *rand.Rand) ([]byte, []byte) {
+// timestamp field (nil if the payload is shorter than a header). origin, if
+// not nil, becomes the origin timestamp field (a receive timestamp the server
+// has on record: interleaved mode).
+func buildPayload(c *tcase, s *srv, rng *rand.Rand, origin []byte) ([]byte, []byte) {
 	hdr := randBytes(rng, 48)
 	hdr[0] = byte(c.B0)
 	if hdr[40] == 0xA5 { // never looks like a sentinel
 		hdr[40] = 0x5A
+	}
+	if origin != nil {
+		copy(hdr[24:32], origin)
+	}
+	if bytes.Equal(hdr[32:40], hdr[40:48]) { // receive != transmit field: not "basic mode for certain"
+		hdr[39] ^= 1
 	}
 	tx := append([]byte{}, hdr[40:48]...)
 	t := c.T
@@ -571,12 +696,12 @@ func v4(ip net.IP) netip.Addr {
 }
 
 // the address of host h ("C", "A", "B") of SCION address type t ("v4" | "v6")
-func hostOf(h, t string) netip.Addr {
+func hostOf(h, t string, cl *client) netip.Addr {
 	if h == "C" {
 		if t == "v6" {
-			return hostC6
+			return cl.ip6
 		}
-		return v4(hostC)
+		return v4(cl.ip4)
 	}
 	if t == "v6" {
 		return srvs[h].ip6
@@ -633,13 +758,13 @@ func typeName(t slayers.AddrType) string {
 }
 
 // inverse of hostOf on (address type, raw bytes); "?" if it is nobody's address
-func hostName(t slayers.AddrType, raw []byte) string {
+func hostName(t slayers.AddrType, raw []byte, cl *client) string {
 	tn := typeName(t)
 	if tn == "?" {
 		return "?"
 	}
 	for _, h := range []string{"C", "A", "B"} {
-		if bytes.Equal(raw, hostOf(h, tn).AsSlice()) {
+		if bytes.Equal(raw, hostOf(h, tn, cl).AsSlice()) {
 			return h
 		}
 	}
@@ -679,7 +804,7 @@ type scionReply struct {
 	pathRaw []byte
 }
 
-func decodeSCION(b []byte, myPort, srvPort int) scionReply {
+func decodeSCION(b []byte, myPort, srvPort int, cl *client) scionReply {
 	var (
 		sl   slayers.SCION
 		hbh  slayers.HopByHopExtnSkipper
@@ -706,9 +831,144 @@ func decodeSCION(b []byte, myPort, srvPort int) scionReply {
 		return "?"
 	}
 	return scionReply{ok: true, payload: ul.Payload, pathRaw: pathBytes(sl.Path),
-		sc: asc{Sia: iaName(sl.SrcIA), Sh: hostName(sl.SrcAddrType, sl.RawSrcAddr), St: typeName(sl.SrcAddrType), Sp: pn(ul.SrcPort),
-			Dia: iaName(sl.DstIA), Dh: hostName(sl.DstAddrType, sl.RawDstAddr), Dt: typeName(sl.DstAddrType), Dp: pn(ul.DstPort),
+		sc: asc{Sia: iaName(sl.SrcIA), Sh: hostName(sl.SrcAddrType, sl.RawSrcAddr, cl), St: typeName(sl.SrcAddrType), Sp: pn(ul.SrcPort),
+			Dia: iaName(sl.DstIA), Dh: hostName(sl.DstAddrType, sl.RawDstAddr, cl), Dt: typeName(sl.DstAddrType), Dp: pn(ul.DstPort),
 			Path: projectPath(sl.Path)}}
+}
+
+// ------------------------------------------------------------- store classes
+
+// tracker follows the operations of the listeners on one client's record
+// (server.VerifTrace: called at the end of handleRequest "H" and of
+// updateTXTimestamp "U", under the store's lock): done is true when the
+// updateTXTimestamp call belonging to the latest handleRequest call has returned.
+type tracker struct {
+	lastH atomic.Int64
+	done  atomic.Bool
+}
+
+var tracked sync.Map // client identity -> *tracker
+
+func installTrace() {
+	server.VerifTrace = func(op, clientID string, _ *ntp.Packet, rxt, _ *time.Time, _ *ntp.Packet) {
+		v, ok := tracked.Load(clientID)
+		if !ok {
+			return
+		}
+		tr := v.(*tracker)
+		if op == "H" {
+			tr.lastH.Store(rxt.UnixNano())
+			tr.done.Store(false)
+		} else if rxt.UnixNano() == tr.lastH.Load() {
+			tr.done.Store(true)
+		}
+	}
+}
+
+// fillers: clients outside the model. "f<i>": newest receive time one hour
+// ahead (never evictable), "o<i>": one hour back (evicted first).
+var (
+	nFresh int
+	oldSeq int
+)
+
+func addFiller(key string, at time.Time) {
+	var req, resp ntp.Packet
+	var txt time.Time
+	server.VerifHandleRequest(key, &req, &at, &txt, &resp)
+}
+
+func storeSize() (n int) {
+	server.VerifLocked(func() { n, _ = server.VerifSizesLocked() })
+	return
+}
+
+func topUp() {
+	far := time.Now().Add(time.Hour)
+	for n := storeSize(); n < server.VerifTssCap; n++ {
+		addFiller("f"+strconv.Itoa(nFresh), far.Add(time.Duration(nFresh)))
+		nFresh++
+	}
+}
+
+func dropFresh() {
+	if nFresh > 0 {
+		nFresh--
+		server.VerifRemove("f" + strconv.Itoa(nFresh))
+	}
+}
+
+// the store as handleRequest will find it for a request of client cid
+func inspect(cid string) (pre apre) {
+	server.VerifLocked(func() {
+		if it, ok := server.VerifLookupLocked(cid); ok {
+			pre.K = it.N
+		}
+		n, _ := server.VerifSizesLocked()
+		pre.Full = n == server.VerifTssCap
+		pre.Fill = "none"
+		if !pre.Full {
+			return
+		}
+		// the least recently active item of another client: the root of the
+		// heap, or one of its children if the root is this client's item
+		now64 := ntp.Time64FromTime(time.Now())
+		found := false
+		var best ntp.Time64
+		for i := 0; i < 3 && i < n; i++ {
+			x, _ := server.VerifQueueAtLocked(i)
+			if x.Key != cid && (!found || x.Qval.Before(best)) {
+				best, found = x.Qval, true
+			}
+		}
+		if found && !best.After(now64) {
+			pre.Fill = "old"
+		} else {
+			pre.Fill = "fresh"
+		}
+	})
+	return
+}
+
+// prepStore puts the store into the class of case c relative to client cid
+// and returns what an inspection then finds; origin is the receive timestamp
+// of one of the client's exchanges on record (class with il), else nil.
+func prepStore(c *tcase, cid string, who *client) (pre apre, origin []byte) {
+	// (under its other identities this worker is "another client" whose item is old)
+	for _, id := range who.ids() {
+		server.VerifRemove(id)
+	}
+	cl := c.Cls
+	if cl.Full && cl.K > 0 && storeSize() == server.VerifTssCap {
+		dropFresh() // room for the client's own item
+	}
+	base := time.Now().Add(-10 * time.Second)
+	for i := 0; i < cl.K; i++ {
+		var req, resp ntp.Packet
+		rxt := base.Add(time.Duration(i) * time.Millisecond)
+		var txt time.Time
+		server.VerifHandleRequest(cid, &req, &rxt, &txt, &resp)
+		txt1 := txt.Add(time.Microsecond) // a kernel transmit timestamp was read
+		server.VerifUpdateTXTimestamp(cid, rxt, &txt1)
+		if cl.Il && i == cl.K/2 {
+			t64 := ntp.Time64FromTime(rxt)
+			origin = make([]byte, 8)
+			binary.BigEndian.PutUint32(origin[0:], t64.Seconds)
+			binary.BigEndian.PutUint32(origin[4:], t64.Fraction)
+		}
+	}
+	if cl.Full {
+		if cl.Fill == "old" {
+			topUp()
+			if inspect(cid).Fill != "old" {
+				dropFresh()
+				addFiller("o"+strconv.Itoa(oldSeq), time.Now().Add(-time.Hour).Add(time.Duration(oldSeq)))
+				oldSeq++
+			}
+		}
+		topUp()
+	}
+	return inspect(cid), origin
 }
 
 // ------------------------------------------------------------------ one case
@@ -718,20 +978,28 @@ const (
 	sentinelWait = 2 * time.Second
 )
 
-func runCase(id, rep int, c *tcase, rng *rand.Rand) *rec {
-	s := srvs[c.To]
+// cl: the client this worker embodies; tr: its tracker (cases with a store class)
+func runCase(id, rep int, c *tcase, rng *rand.Rand, cl *client, tr *tracker) *rec {
+	s := inst(c.To, c.Conf)
 	r := &rec{K: "case", ID: id, Rep: rep, Srv: s.name, Tp: c.Tp, B0: c.B0, Len: c.Len, Tr: c.Tr, Pk: c.Pk,
-		Src: aep{"C", "eph"}, Dst: s.ep(c.Tp), Exp: c.Exp, Drop: c.Drop, Out: []arep{}}
+		Src: aep{"C", "eph"}, Dst: s.ep(c.Tp), Exp: c.Exp, Drop: c.Drop, Out: []arep{},
+		Conf: c.Conf, Store: c.Store, Il: c.Il, Anc: c.Anc, Pre: apre{Fill: "none"}, PostK: -1}
+	cid := cl.id(c.Tp, c.Sc.St)
 	for try := 1; try <= maxTries; try++ {
 		r.Tries = try
 		r.Out, r.Sout, r.N, r.Other, r.Sn = []arep{}, []arep{}, 0, 0, 0
+		var origin []byte
+		if c.Store != "asis" {
+			r.Obs = true
+			r.Pre, origin = prepStore(c, cid, cl)
+		}
 		// a fresh source port; it must differ from the listeners' port numbers,
 		// otherwise the port abstraction (eph / ntp / sntp) has no exact inverse
 		var conn *net.UDPConn
 		var myPort int
 		for {
 			var err error
-			conn, err = net.ListenUDP("udp4", &net.UDPAddr{IP: hostC})
+			conn, err = net.ListenUDP("udp4", &net.UDPAddr{IP: cl.ip4})
 			if err != nil {
 				panic(err)
 			}
@@ -742,7 +1010,11 @@ func runCase(id, rep int, c *tcase, rng *rand.Rand) *rec {
 			conn.Close()
 		}
 		dst := s.udpAddr(c.Tp)
-		payload, tx := buildPayload(c, s, rng)
+		payload, tx := buildPayload(c, s, rng, origin)
+		var rx []byte
+		if tx != nil {
+			rx = append([]byte{}, payload[32:40]...)
+		}
 		// the sentinel alternates between a plain and an NTS request, so that a
 		// well-formed request LONGER than the case follows it on the same socket too
 		r.Slen, r.Str = 48, "none"
@@ -757,7 +1029,7 @@ func runCase(id, rep int, c *tcase, rng *rand.Rand) *rec {
 			// slayers' own Reverse() of a copy of the request's path
 			wrap := func(pl []byte) ([]byte, []byte) {
 				p, pt := buildPath(c.Path, rng)
-				w, pb := buildSCION(iaC, s.ia, hostOf("C", c.Sc.St), hostOf(s.name, c.Sc.Dt), myPort, s.scionPort, p, pt, pl)
+				w, pb := buildSCION(iaC, s.ia, hostOf("C", c.Sc.St, cl), hostOf(s.name, c.Sc.Dt, cl), myPort, s.scionPort, p, pt, pl)
 				want := pb
 				if c.Path.Kind != "empty" {
 					raw := &scion.Raw{}
@@ -783,8 +1055,9 @@ func runCase(id, rep int, c *tcase, rng *rand.Rand) *rec {
 		if _, err := conn.WriteToUDP(swire, dst); err != nil {
 			panic(err)
 		}
-		predict(c.Drop)
-		predict("none") // the sentinel
+		s.predict(c.Drop)
+		s.predict("none") // the sentinel
+		s.sent.Add(2)
 		conn.SetReadDeadline(time.Now().Add(sentinelWait))
 		buf := make([]byte, 16384)
 		for r.Sn == 0 && r.N < 16 {
@@ -799,7 +1072,7 @@ func runCase(id, rep int, c *tcase, rng *rand.Rand) *rec {
 			}
 			var pathRaw []byte
 			if c.Tp == "scion" {
-				d := decodeSCION(pl, myPort, s.scionPort)
+				d := decodeSCION(pl, myPort, s.scionPort, cl)
 				if !d.ok {
 					r.Other++
 					continue
@@ -820,19 +1093,35 @@ func runCase(id, rep int, c *tcase, rng *rand.Rand) *rec {
 				o.Tr = "nts_resp"
 			}
 			if isSentinel {
-				o.Echo = true
+				o.Echo, o.Org = true, "tx"
 				o.RawOK = c.Tp != "scion" || bytes.Equal(pathRaw, swantPath)
 				r.Sout = []arep{o}
 				r.Sn = 1
 				break
 			}
 			o.Echo = tx != nil && len(pl) >= 48 && bytes.Equal(pl[24:32], tx)
+			o.Org = "none"
+			if o.Echo {
+				o.Org = "tx"
+			} else if rx != nil && len(pl) >= 48 && bytes.Equal(pl[24:32], rx) {
+				o.Org = "rx"
+			}
 			o.RawOK = c.Tp != "scion" || bytes.Equal(pathRaw, wantPath)
 			r.Out = append(r.Out, o)
 			r.N++
 		}
 		if r.Sn == 1 {
 			conn.Close() // everything sent to this socket has been read
+			if r.Obs && tr != nil {
+				// the sentinel's reply is here, so its handleRequest call has returned;
+				// the client's record is final once the matching updateTXTimestamp call has
+				for end := time.Now().Add(100 * time.Millisecond); !tr.done.Load() && time.Now().Before(end); {
+					time.Sleep(50 * time.Microsecond)
+				}
+				if tr.done.Load() {
+					r.PostK = inspect(cid).K
+				}
+			}
 			break
 		}
 		// the attempt timed out: late datagrams may still be on their way to this
@@ -888,11 +1177,11 @@ func runPair(id int, c *tcase, rng *rand.Rand) (*prec, error) {
 	from, to := srvs[c.From], srvs[c.To]
 	r := &prec{K: "pair", ID: id, Srv: to.name, Tp: c.Tp, B0: c.B0, Len: c.Len, Tr: c.Tr, Pk: c.Pk,
 		Src: from.ep(c.Tp), Dst: to.ep(c.Tp), Exp: c.Exp, Drop: c.Drop}
-	payload, _ := buildPayload(c, to, rng)
+	payload, _ := buildPayload(c, to, rng, nil)
 	wire := payload
 	if c.Tp == "scion" {
 		p, pt := buildPath(c.Path, rng)
-		wire, _ = buildSCION(from.ia, to.ia, hostOf(from.name, c.Sc.St), hostOf(to.name, c.Sc.Dt), from.scionPort, to.scionPort, p, pt, payload)
+		wire, _ = buildSCION(from.ia, to.ia, hostOf(from.name, c.Sc.St, hostC), hostOf(to.name, c.Sc.Dt, hostC), from.scionPort, to.scionPort, p, pt, payload)
 	}
 	before := snapshot(c.Tp)
 	if err := sendForged(from.udpAddr(c.Tp), to.udpAddr(c.Tp), wire); err != nil {
@@ -936,7 +1225,7 @@ func runPair(id int, c *tcase, rng *rand.Rand) (*prec, error) {
 // ----------------------------------------------------------------------- test
 
 func TestC09(t *testing.T) {
-	cases := vio.ReadCases[tcase](t)
+	all := vio.ReadCases[tcase](t)
 	var pairs []tcase
 	if p := os.Getenv("VERIF_PAIRS"); p != "" {
 		pairs = vio.ReadCasesFrom[tcase](t, p)
@@ -949,23 +1238,47 @@ func TestC09(t *testing.T) {
 	h := uint32(os.Getpid())*2654435761 ^ uint32(time.Now().UnixNano())
 	base := net.IPv4(127, byte(1+(h>>8)%250), byte(h>>16), 0).To4()
 	mk := func(last byte) net.IP { ip := append(net.IP{}, base...); ip[3] = last; return ip }
-	hostC = mk(3)
-	startServer(t, "A", mk(1), "1-ff00:0:111")
-	startServer(t, "B", mk(2), "1-ff00:0:112")
+	hostC.ip4 = mk(3)
+	startServer(t, "A", mk(1), "1-ff00:0:111", "sw")
+	startServer(t, "B", mk(2), "1-ff00:0:112", "sw")
+	// server A once more, its listeners started with an interface name (own ports)
+	startServer(t, "A", mk(1), "1-ff00:0:111", "hw")
+
+	// the cases by phase: store left as the run leaves it | a store class that
+	// does not need a full store | one that does
+	var cases, storeA, storeB []int
+	for i := range all {
+		switch {
+		case all[i].Store == "asis":
+			cases = append(cases, i)
+		case all[i].Cls.Full:
+			storeB = append(storeB, i)
+		default:
+			storeA = append(storeA, i)
+		}
+	}
 
 	// preflight: a plain valid request must be answered on both transports,
 	// otherwise every case would run into the sentinel time-out
 	pre := 0
-	for _, tp := range []string{"ip", "scion"} {
-		c := tcase{Tp: tp, B0: 0x23, Len: 48, Tr: "none", Pk: "empty", Fam: "44", From: "C", To: "A", Path: emptyPath, Exp: 1, Drop: "none",
-			Sc: asc{"iaC", "C", "v4", "eph", "iaA", "A", "v4", "sntp", emptyPath}}
-		r := runCase(-1, 0, &c, vio.Rand())
-		out.Emit(r)
-		pre++
-		if r.Sn != 1 {
-			t.Logf("C09 preflight: no reply to a plain valid %s request reached the sender (recorded)", tp)
-			t.Logf("C09 records=%d cases=0 pairs=0 aborted=1", pre)
-			return
+	for _, conf := range []string{"sw", "hw"} {
+		for _, tp := range []string{"ip", "scion"} {
+			c := tcase{Tp: tp, B0: 0x23, Len: 48, Tr: "none", Pk: "empty", Fam: "44", From: "C", To: "A", Path: emptyPath, Exp: 1, Drop: "none",
+				Sc:   asc{"iaC", "C", "v4", "eph", "iaA", "A", "v4", "sntp", emptyPath},
+				Conf: conf, Store: "asis", Cls: acls{Fill: "none"}, Anc: map[string]string{"sw": "ts", "hw": "none"}[conf], Org: "tx"}
+			r := runCase(-1, 0, &c, vio.Rand(), hostC, nil)
+			out.Emit(r)
+			pre++
+			if r.Sn != 1 && conf == "sw" {
+				t.Logf("C09 preflight: no reply to a plain valid %s request reached the sender (recorded)", tp)
+				t.Logf("C09 records=%d cases=0 pairs=0 aborted=1 skipped=0", pre)
+				return
+			}
+			if r.Sn != 1 {
+				// recorded; the cases addressed to this listener would all time out
+				t.Logf("C09 preflight: the %s listener started with an interface name did not answer a plain valid request (recorded)", tp)
+				hwDead[tp] = true
+			}
 		}
 	}
 
@@ -975,47 +1288,59 @@ func TestC09(t *testing.T) {
 	}
 	const workers = 12
 	var wg sync.WaitGroup
-	var lost, done atomic.Int64
-	for w := 0; w < workers; w++ {
-		wg.Add(1)
-		go func(w int) {
-			defer wg.Done()
-			rng := rand.New(rand.NewSource(vio.Seed()*1000 + int64(w)))
-			for rep := 0; rep < reps; rep++ {
-				for i := w; i < len(cases); i += workers {
-					if lost.Load() > 24 {
-						return // the monitor has plenty to look at
+	var lost, done, skipped atomic.Int64
+	// runs the cases idx[w], idx[w+n], ... on n workers; worker w embodies client cl(w)
+	phase := func(idx []int, n, reps int, cl func(w int) (*client, *tracker), maxLost int64) {
+		for w := 0; w < n; w++ {
+			wg.Add(1)
+			go func(w int) {
+				defer wg.Done()
+				rng := rand.New(rand.NewSource(vio.Seed()*1000 + int64(w)))
+				c, tr := cl(w)
+				for rep := 0; rep < reps; rep++ {
+					for k := w; k < len(idx); k += n {
+						if lost.Load() > maxLost {
+							return // the monitor has plenty to look at
+						}
+						tc := &all[idx[k]]
+						if tc.Conf == "hw" && hwDead[tc.Tp] {
+							skipped.Add(1)
+							continue
+						}
+						r := runCase(idx[k], rep, tc, rng, c, tr)
+						if r.Sn != 1 {
+							lost.Add(1)
+						}
+						out.Emit(r)
+						done.Add(1)
 					}
-					r := runCase(i, rep, &cases[i], rng)
-					if r.Sn != 1 {
-						lost.Add(1)
-					}
-					out.Emit(r)
-					done.Add(1)
 				}
-			}
-		}(w)
+			}(w)
+		}
+		wg.Wait()
 	}
-	wg.Wait()
+	phase(cases, workers, reps, func(int) (*client, *tracker) { return hostC, nil }, 24)
 
 	// per-stage totals of the case phase (exact only if no attempt timed out:
 	// otherwise it is unknown what the listener did with the lost datagrams)
 	if lost.Load() == 0 && len(graveyard) == 0 {
 		time.Sleep(20 * time.Millisecond) // log lines of the last iterations
-		logged, pred := srvs["A"].logs.snapshot(), predicted.snapshot()
-		keys := map[string]bool{}
-		for k := range logged {
-			keys[k] = true
-		}
-		for k := range pred {
-			keys[k] = true
-		}
-		for k := range keys {
-			if len(k) > 4 && k[:4] == "log:" {
-				continue // not a stage of the pipeline (timestamping diagnostics etc.)
+		for _, s := range []*srv{srvs["A"], srvsHw["A"]} {
+			logged, pred := s.logs.snapshot(), s.pred.snapshot()
+			keys := map[string]bool{}
+			for k := range logged {
+				keys[k] = true
 			}
-			out.Emit(&srec{K: "stage", Stage: k, Logged: logged[k], Predicted: pred[k]})
-			pre++
+			for k := range pred {
+				keys[k] = true
+			}
+			for k := range keys {
+				if len(k) > 4 && k[:4] == "log:" {
+					continue // not a stage of the pipeline (timestamping diagnostics etc.)
+				}
+				out.Emit(&srec{K: "stage", Conf: s.conf, Stage: k, Logged: logged[k], Predicted: pred[k]})
+				pre++
+			}
 		}
 	}
 
@@ -1041,5 +1366,49 @@ func TestC09(t *testing.T) {
 		out.Emit(r)
 		npair++
 	}
-	t.Logf("C09 records=%d cases=%d pairs=%d aborted=%d", pre+int(done.Load())+npair, done.Load(), npair, lost.Load())
+
+	// cases with a store class. Each worker is a client of its own (its record
+	// in the store is its own business); the classes that need a full store run
+	// on one worker, after the store has been filled up with 2^20 fillers.
+	if lost.Load() == 0 && len(storeA)+len(storeB) > 0 {
+		installTrace()
+		const sworkers = 8
+		cls := make([]*client, sworkers)
+		trs := make([]*tracker, sworkers)
+		for w := range cls {
+			cls[w] = &client{ip4: mk(byte(16 + w)), ip6: netip.MustParseAddr("fd00:1:2:3:4:5:6:" + strconv.FormatInt(int64(0x100+w), 16))}
+			trs[w] = &tracker{}
+			for _, id := range cls[w].ids() {
+				tracked.Store(id, trs[w])
+			}
+		}
+		phase(storeA, sworkers, 1, func(w int) (*client, *tracker) { return cls[w], trs[w] }, 6)
+		if lost.Load() == 0 && len(storeB) > 0 {
+			t0 := time.Now()
+			// nobody of the run so far stays behind as an old item
+			server.VerifReset(nil)
+			topUp()
+			t.Logf("C09 store filled up: %d fillers in %v", nFresh, time.Since(t0))
+			// classes whose fillers are all fresh first: an old filler, once there, stays until evicted
+			sort.SliceStable(storeB, func(i, j int) bool {
+				return all[storeB[i]].Cls.Fill != "old" && all[storeB[j]].Cls.Fill == "old"
+			})
+			phase(storeB, 1, 1, func(w int) (*client, *tracker) { return cls[w], trs[w] }, 6)
+		}
+	}
+
+	// how often the listeners found no receive timestamp next to a datagram
+	if lost.Load() == 0 && len(graveyard) == 0 {
+		time.Sleep(20 * time.Millisecond)
+		for _, s := range []*srv{srvs["A"], srvsHw["A"]} {
+			n := int(s.sent.Load())
+			r := &ancrec{K: "anc", Conf: s.conf, Stage: "rxtimestamp", Logged: s.logs.snapshot()[msgNoRxTimestamp], Sent: n}
+			if s.conf == "hw" {
+				r.Predicted = n
+			}
+			out.Emit(r)
+			pre++
+		}
+	}
+	t.Logf("C09 records=%d cases=%d pairs=%d aborted=%d skipped=%d", pre+int(done.Load())+npair, done.Load(), npair, lost.Load(), skipped.Load())
 }
